@@ -30,24 +30,26 @@ def classify(monitor, item, spec, res):
     cname = res.get("class_names", {}).get(str(cls)) if cls is not None else None
     cdef = next((c for c in spec["classes"] if c["name"] == cname), None)
     if monitor in ("overlap", "count"):
-        if cdef is not None and cdef.get("root_of"):
-            feats.append("object-root")
         mt = int(cfg.get("max_tries", 1) or 1)
         mct = cfg.get("max_concurrent_tries")
-        if mct is not None and int(mct) > max(mt, 1):
-            feats.append("mct>max_tries")
+        if mct is not None and int(mct) > max(mt, 1) and monitor == "count":
+            return "count:mct>max_tries"
+        if monitor == "count" and cdef is not None and cdef.get("root_of") and mt > 1:
+            return "count:object-root-creation-hidden-from-retry-budget"
+        if cdef is not None and cdef.get("root_of"):
+            feats.append("object-root")
         if cdef is not None and cdef.get("set"):
             feats.append("stateful")
         if mt > 1:
             feats.append("retries")
+        if mct is not None:
+            feats.append(f"mct={mct}")
     elif monitor == "states":
         # where is the state at the end of the run?  (peer-own-only is the signature of F5)
         vmst = parts[-1]
         scope = cfg.get("pool_scope", "").split()
         if res.get("initial_peer_only", {}).get(vmst):
             feats.append("state-initially-only-in-a-peer-own-pool")
-        elif spec["workers"][0]["spawner"] == "remote" and "swarm" not in scope and "cluster" not in scope:
-            feats.append("remote-workers-share-within-swarm-although-swarm-scope-disabled")
         elif spec["workers"][0]["spawner"] != "lxc" and "swarm" not in scope:
             feats.append("non-lxc-workers-share-although-swarm-scope-disabled")
         else:
@@ -56,6 +58,9 @@ def classify(monitor, item, spec, res):
         feats.append(parts[-1].split(":")[0])
     elif monitor == "cleanup":
         feats.append(parts[1].split(":")[0])
+        swarm = {w["id"]: w["swarm"] for w in spec["workers"]}
+        if parts[-1] in swarm and swarm.get(parts[0]) != swarm.get(parts[-1]):
+            feats.append("cross-swarm")
     elif monitor == "result":
         feats.append(item.split(":")[0])
         if item.startswith("raise"):
@@ -92,15 +97,15 @@ def _run_spec(spec, monitors, ident):
         if loc == "shared":
             continue
         for vm, st in sts:
-            if [vm, st] not in pool.get("shared", []):
+            if [vm, st] not in pool.get("shared", []) or "shared" not in spec["cfg"].get("pool_scope", "").split():
                 own_only[f"{vm}:{st}"] = True
     res["initial_peer_only"] = own_only
     return res
 
 
-def family_run(ctx, monitors, n_cases, profiles=PROFILES, procs=14, corpus=None, label="trav"):
+def family_run(ctx, monitors, n_cases, profiles=PROFILES, procs=14, corpus=None, label="trav", seed_offset=0):
     scratch = ctx.mkscratch()
-    jobs = [(ctx.seed, i, profiles[i % len(profiles)], monitors, scratch) for i in range(n_cases)]
+    jobs = [(ctx.seed + seed_offset, i, profiles[i % len(profiles)], monitors, scratch) for i in range(n_cases)]
     results = []
     # corpus of minimised past cases first
     if corpus and os.path.isdir(corpus):
